@@ -172,6 +172,10 @@ func monitorFree(outPath string, seed int64, runs int) int {
 		if w.stuck {
 			stuck++
 		}
+		if stuck >= maxStuck {
+			fmt.Printf("STOPPED after %d stuck runs (run %d)\n", stuck, i)
+			break
+		}
 	}
 	fmt.Printf("FREE runs=%d lines=%d stuck=%d inconclusive=%d\n", runs, out.N, stuck, inconcl)
 	if inconcl > 0 {
